@@ -59,6 +59,38 @@ def _split_tuple_assigns(fn):
             b[:] = out
 
 
+def _rejoin_outlined_locals(node, module):
+    """The front end folds statements that a change wrote out in the host back into the helper they came from
+    (sa/outline.py) and flat_method writes them out again, under fresh local names.  A local of those statements
+    that the host goes on reading after them (`h = ...copy(); ...; self.f = h; use(h)`) is then read under a name
+    nothing in the host binds any more, while its definition sits under `<name>__i<k>`.  Such a read can only
+    mean that local (the name is bound nowhere else: not in the host, not in the module, not a builtin), so the
+    fresh name is given the original one back."""
+    import builtins
+    import re
+    bound, loads = set(), set()
+    a = node.args
+    bound |= {x.arg for x in a.posonlyargs + a.args + a.kwonlyargs + ([a.vararg] if a.vararg else []) + ([a.kwarg] if a.kwarg else [])}
+    for n in ast.walk(node):
+        if isinstance(n, ast.Name):
+            (loads if isinstance(n.ctx, ast.Load) else bound).add(n.id)
+        elif isinstance(n, (ast.FunctionDef, ast.AsyncFunctionDef, ast.ClassDef)) and n is not node:
+            bound.add(n.name)
+        elif isinstance(n, ast.arg):
+            bound.add(n.arg)
+        elif isinstance(n, ast.ExceptHandler) and n.name:
+            bound.add(n.name)
+        elif isinstance(n, (ast.Import, ast.ImportFrom)):
+            bound |= {(al.asname or al.name).split(".")[0] for al in n.names}
+    known = set(module.functions) | set(module.classes) | set(module.imports) | set(module.assigns) | set(dir(builtins))
+    for name in sorted(loads - bound - known):
+        twins = [b for b in bound if re.fullmatch(re.escape(name) + r"__i\d+", b)]
+        if len(twins) == 1:
+            for n in ast.walk(node):
+                if isinstance(n, ast.Name) and n.id == twins[0]:
+                    n.id = name
+
+
 def flat_method(ck, qual) -> FA:
     """FA of a copy of method `qual` in which the calls `self._helper(...)` to private methods of its own
     class are inlined (recursively): whether a constructor computes a field in place, through one helper,
@@ -89,6 +121,8 @@ def flat_method(ck, qual) -> FA:
         inl.rewrite_block_owner(node, fi, _all_names(node), 0)
     except RecursionError:
         node = copy.deepcopy(host)
+    if fi.qual in set((getattr(ck.repo, "reoutlined", None) or {}).values()):
+        _rejoin_outlined_locals(node, fi.module)
     _split_tuple_assigns(node)
     ast.fix_missing_locations(node)
     nfi = FuncInfo(fi.module, node, fi.qual, cls=fi.cls, parent=fi.parent)
@@ -860,6 +894,246 @@ def parse_literal(t):
     return e
 
 
+class _Tok:
+    """an opaque value: equal to itself, nothing else is known about it (it may be None, empty, anything)"""
+    def __init__(self, name):
+        self.name = name
+
+
+class _CtxVal:
+    """an InvocationContext: the recursive fields that were set on it through update_recursive (the others are
+    whatever the context the function received holds: one opaque value per field)"""
+    _base = {}
+
+    def __init__(self, over):
+        self.over = dict(over)
+
+    def recursive(self):
+        r = _Rec(**self.over)
+        r.default = lambda a: _CtxVal._base.setdefault(a, _Tok("context.recursive." + a))
+        return r
+
+
+_CS = _Tok("CallStack.get()")
+INHERITED_CA = _Tok("the calling frame's context args")
+
+
+def _model_frames():
+    """the calling frame there may be: none, one that allows further calls, one that prevents them (its memento may
+    or may not be there yet)"""
+    return {"none": None,
+            "free": _Rec(recursive_context=_Rec(prevent_further_calls=False, context_args=INHERITED_CA)),
+            "prevented": _Rec(recursive_context=_Rec(prevent_further_calls=True, context_args=INHERITED_CA))}
+
+
+class _Opaque:
+    """a value of which only the truth is known"""
+    def __init__(self, truth):
+        self.truth = bool(truth)
+
+
+def _truth(v):
+    if v is _UNKNOWN or v is _RAISES:
+        return v
+    if isinstance(v, _Opaque):
+        return v.truth
+    if isinstance(v, _Tok):
+        return _UNKNOWN
+    if isinstance(v, (_Rec, _CtxVal)):
+        return True
+    try:
+        return bool(v)
+    except Exception:
+        return _UNKNOWN
+
+
+def _mev(e, env, frame):
+    """Value of expression `e` for a given calling frame, with the locals bound so far in `env`: a model value, _UNKNOWN
+    (nothing is known: every continuation stays possible) or _RAISES (attribute of None)."""
+    if isinstance(e, ast.Constant):
+        return e.value
+    if isinstance(e, ast.NamedExpr):
+        return _mev(e.value, env, frame)
+    if isinstance(e, ast.Name):
+        return env.get(e.id, _UNKNOWN)
+    if isinstance(e, ast.Attribute):
+        b = _mev(e.value, env, frame)
+        if b is _UNKNOWN or b is _RAISES:
+            return b
+        if b is None:
+            return _RAISES
+        if isinstance(b, _CtxVal):
+            return b.recursive() if e.attr == "recursive" else _UNKNOWN
+        if isinstance(b, _Rec):
+            if e.attr in b.attrs:
+                return b.attrs[e.attr]
+            d = getattr(b, "default", None)
+            return d(e.attr) if d is not None else _UNKNOWN
+        return _UNKNOWN
+    if isinstance(e, ast.Call):
+        f = e.func
+        if isinstance(f, ast.Name) and f.id == "cast" and len(e.args) == 2 and not e.keywords:
+            return _mev(e.args[1], env, frame)
+        if isinstance(f, ast.Name) and f.id == "bool" and len(e.args) == 1 and not e.keywords:
+            return _truth(_mev(e.args[0], env, frame))
+        if isinstance(f, ast.Attribute):
+            if f.attr == "get" and isinstance(f.value, ast.Name) and f.value.id == "CallStack" and not e.args and not e.keywords:
+                return _CS
+            r = _mev(f.value, env, frame)
+            if r is _RAISES:
+                return _RAISES
+            if f.attr == "get_calling_frame" and r is _CS and not e.args and not e.keywords:
+                return frame
+            if isinstance(r, _CtxVal) and f.attr in ("update_recursive", "update_local"):
+                if f.attr == "update_local":
+                    return r
+                k = A.const_str(A.arg_or_kw(e, 0, "key"))
+                v = A.arg_or_kw(e, 1, "value")
+                if k is None or v is None:
+                    return _UNKNOWN
+                val = _mev(v, env, frame)
+                if val is _RAISES:
+                    return _RAISES
+                return _CtxVal(dict(r.over, **{k: val}))
+        return _UNKNOWN
+    if isinstance(e, ast.UnaryOp) and isinstance(e.op, ast.Not):
+        t = _truth(_mev(e.operand, env, frame))
+        return t if t is _UNKNOWN or t is _RAISES else (not t)
+    if isinstance(e, ast.BoolOp):
+        is_and = isinstance(e.op, ast.And)
+        unknown = False
+        last = is_and
+        for x in e.values:
+            v = _mev(x, env, frame)
+            if v is _RAISES:
+                return _UNKNOWN if unknown else _RAISES
+            t = _truth(v)
+            if t is _UNKNOWN:
+                unknown = True
+                continue
+            last = v
+            if t != is_and:
+                # decided here; an operand before it whose truth is not known may have decided first, the same way:
+                # only the truth of the result is known then
+                return _Opaque(t) if unknown else v
+        return _UNKNOWN if unknown else last
+    if isinstance(e, ast.IfExp):
+        t = _truth(_mev(e.test, env, frame))
+        if t is _RAISES:
+            return _RAISES
+        if t is _UNKNOWN:
+            a, b = _mev(e.body, env, frame), _mev(e.orelse, env, frame)
+            return a if a is b and a is not _RAISES else _UNKNOWN
+        return _mev(e.body if t else e.orelse, env, frame)
+    if isinstance(e, ast.Compare) and len(e.ops) == 1 and isinstance(e.ops[0], (ast.Is, ast.IsNot, ast.Eq, ast.NotEq)):
+        l, r = _mev(e.left, env, frame), _mev(e.comparators[0], env, frame)
+        if l is _RAISES or r is _RAISES:
+            return _RAISES
+        if l is _UNKNOWN or r is _UNKNOWN:
+            return _UNKNOWN
+        if isinstance(l, _Opaque) or isinstance(r, _Opaque):
+            o, other = (l, r) if isinstance(l, _Opaque) else (r, l)
+            if not (o.truth and other is None):
+                return _UNKNOWN
+            same = False    # something truthy is not None
+        elif isinstance(l, _Tok) or isinstance(r, _Tok):
+            if l is not r:
+                return _UNKNOWN
+            same = True
+        elif isinstance(e.ops[0], (ast.Is, ast.IsNot)) or isinstance(l, (_Rec, _CtxVal)) or isinstance(r, (_Rec, _CtxVal)):
+            same = l is r
+        else:
+            same = l == r
+        return same if isinstance(e.ops[0], (ast.Is, ast.Eq)) else not same
+    return _UNKNOWN
+
+
+def _vkey(v):
+    if isinstance(v, _CtxVal):
+        return ("ctx",) + tuple(sorted((k, _vkey(x)) for k, x in v.over.items()))
+    if v is None or isinstance(v, (bool, int, str, float)):
+        return ("c", repr(v))
+    if isinstance(v, _Opaque):
+        return ("t", v.truth)
+    return ("o", id(v))
+
+
+class ModelRun:
+    """The function walked for one kind of calling frame: every path of its CFG on which the branch tests can come out
+    the way the path takes them, with the locals the path has bound (values of the model; anything else unknown, and
+    an unknown test leaves both branches open).  `envs[n]` lists the bindings with which CFG node n is entered."""
+
+    def __init__(self, fa, frame, ctx_param, cap=20000):
+        self.fa, self.frame = fa, frame
+        cfg = fa.cfg
+        self.envs = {}
+        seen = set()
+        work = [(cfg.entry, {ctx_param: _CtxVal({})})]
+        while work:
+            n, env = work.pop()
+            key = (n, tuple(sorted((k, _vkey(v)) for k, v in env.items())))
+            if key in seen:
+                continue
+            seen.add(key)
+            if len(seen) > cap:
+                raise AnalysisError("%s: too many cases when the function is read for each kind of calling frame" % fa.qual)
+            self.envs.setdefault(n, []).append(env)
+            nd = cfg.node(n)
+            raised, t = False, _UNKNOWN
+            a = nd.ast
+            if nd.kind == "test":
+                t = _truth(_mev(a, env, frame))
+            elif a is not None:
+                binds = {}
+                if nd.kind == "stmt" and isinstance(a, (ast.Assign, ast.AnnAssign)) and getattr(a, "value", None) is not None:
+                    tgs = a.targets if isinstance(a, ast.Assign) else [a.target]
+                    for tg in tgs:
+                        if isinstance(tg, ast.Name):
+                            binds[tg.id] = _mev(a.value, env, frame)
+                        elif isinstance(tg, (ast.Tuple, ast.List)) and isinstance(a.value, (ast.Tuple, ast.List)) and len(tg.elts) == len(a.value.elts) \
+                                and all(isinstance(x, ast.Name) for x in tg.elts):
+                            for x, v in zip(tg.elts, a.value.elts):
+                                binds[x.id] = _mev(v, env, frame)
+                    if any(v is _RAISES for v in binds.values()):
+                        raised = True
+                        binds = {}
+                own = [a] if nd.kind == "stmt" and not isinstance(a, (ast.FunctionDef, ast.AsyncFunctionDef, ast.ClassDef)) else \
+                    ([a.target] if nd.kind == "for" else ([i.optional_vars for i in a.items if i.optional_vars is not None] if nd.kind == "with" else []))
+                for o in own:
+                    for x in ast.walk(o):
+                        if isinstance(x, ast.Name) and isinstance(x.ctx, (ast.Store, ast.Del)) and x.id not in binds:
+                            binds[x.id] = _UNKNOWN
+                if nd.kind == "except" and getattr(a, "name", None):
+                    binds[a.name] = _UNKNOWN
+                if isinstance(a, (ast.FunctionDef, ast.AsyncFunctionDef, ast.ClassDef)) and nd.kind == "stmt":
+                    binds[a.name] = _UNKNOWN
+                if binds:
+                    env = dict(env)
+                    for k, v in binds.items():
+                        if v is _UNKNOWN:
+                            env.pop(k, None)
+                        else:
+                            env[k] = v
+            for (d, l) in cfg.succ[n]:
+                if raised and l != "exc":
+                    continue
+                if nd.kind == "test" and not isinstance(fa.pm.get(a), ast.While):
+                    if t is _RAISES and l != "exc":
+                        continue
+                    if t is True and l == "F":
+                        continue
+                    if t is False and l == "T":
+                        continue
+                work.append((d, env))
+
+    def reached(self, nodes):
+        return any(n in self.envs for n in nodes)
+
+    def values(self, expr, node):
+        """the values `expr` can have when CFG node `node` is entered (one per case)"""
+        return [_mev(expr, env, self.frame) for env in self.envs.get(node, [])]
+
+
 def _feasible_for(conj, frame):
     """can a path with these branch literals be taken when the calling frame is `frame`?"""
     for (t, p) in conj:
@@ -1046,6 +1320,21 @@ def check(ck):
     def upd_key(c):
         return A.const_str(A.arg_or_kw(c, 0, "key"))
 
+    _runs = {}
+
+    def model_run(kind):
+        if kind not in _runs:
+            _runs[kind] = ModelRun(rb, _model_frames()[kind], P_CTX)
+        return _runs[kind]
+
+    def is_inherited(expr, at):
+        """`expr` at node `at` is the calling frame's context args: by its expansion, or — when a local on the way is
+        bound differently per case — by its value on every path that gets there with a calling frame"""
+        if ctx_text(rb, expr, at) == INHERITED:
+            return True
+        vals = model_run("free").values(expr, at)
+        return bool(vals) and all(v is INHERITED_CA for v in vals)
+
     upcalls = [c for c in rb.calls("update_recursive")]
     ups = [c for c in upcalls if upd_key(c) == "context_args"]
     ok2 = len(ups) == 1 and bool(rb.nodes(ups[0]))
@@ -1053,7 +1342,7 @@ def check(ck):
     if ok2:
         u = ups[0]
         val = A.arg_or_kw(u, 1, "value")
-        ok2 = val is not None and ctx_text(rb, val, un[0]) == INHERITED and ("param:" + P_CTX) in rb.deps(A.call_recv(u), un[0])
+        ok2 = val is not None and is_inherited(val, un[0]) and ("param:" + P_CTX) in rb.deps(A.call_recv(u), un[0])
         cu = conds(rb, un[0])
         refs = [c for c in upcalls if upd_key(c) in ("correlation_id", "retry_on_remote_call") and rb.nodes(c) and rb.nodes(c)[0] != un[0]]
         if refs:
@@ -1114,7 +1403,7 @@ def check(ck):
         if ok3:
             a = [A.arg_or_kw(c, i, n) for i, n in enumerate(("fn_reference", "args", "kwargs", "context_args"))]
             ok3 = all(x is not None for x in a) and [A.norm(x) for x in a[:3]] == [cv + ".fn_reference", cv + ".args", cv + ".kwargs"] \
-                and ctx_text(rb, a[3], at) == INHERITED
+                and is_inherited(a[3], at)
         # built after the update, on every inheriting path, and it is what is dispatched
         ok3 = ok3 and all(rb.cfg.must_pass(un, i) for i in through)
         if ok3:
@@ -1318,6 +1607,13 @@ def check(ck):
                 cs = conds(rb, rb.nodes(r)[0])
                 if cs and any(_feasible_for(c, M["prevented"]) for c in cs) and not any(_feasible_for(c, M["none"]) or _feasible_for(c, M["free"]) for c in cs):
                     ok4 = True
+    if not ok4 and all_dn:
+        # the same clause once more, now with the function walked for each kind of calling frame (locals that are bound
+        # differently per case, e.g. `caller_context = None` / `= calling_frame.recursive_context`, carry their values)
+        runs = {k: ModelRun(rb, fr, P_CTX) for k, fr in _model_frames().items()}
+        rt = [n for r in rb.stmts(ast.Raise) if r.exc is not None and A.norm(r.exc.func if isinstance(r.exc, ast.Call) else r.exc) == "RuntimeError" for n in rb.nodes(r)]
+        ok4 = not runs["prevented"].reached(all_dn) and not runs["prevented"].reached([rb.cfg.exit]) and runs["prevented"].reached(rt) \
+            and not runs["none"].reached(rt) and not runs["free"].reached(rt) and runs["free"].reached(all_dn) and runs["none"].reached(all_dn)
     ck.ob(R4, rb.key(None, "prevent-dominates-dispatch"), ok4, "a prevented call raises before anything is dispatched" if ok4 else
           "the prevent_further_calls check does not dominate the dispatch to the runner", rb.where())
 
